@@ -107,10 +107,7 @@ def p2sh_script_sig(sigs: typing.List[bytes], redeem_script: bytes) -> bytes:
 
     ...signatures... {serialized script}
     """
-    script_sig = [len(sig).to_bytes(1, "little") + sig for sig in sigs]
-    script_sig = b"".join(script_sig)
-    script_sig += len(redeem_script).to_bytes(1, "little") + redeem_script
-    return script_sig
+    return script([sig.hex() for sig in sigs] + [redeem_script.hex()])
 
 
 def multisig_script_pubkey(m: int, pubkeys: typing.List[bytes]) -> bytes:
@@ -146,7 +143,7 @@ def null_data_script_pubkey(data: bytes) -> bytes:
     Script pubkey for Null data
     https://developer.bitcoin.org/devguide/transactions.html#null-data
     """
-    return constants.OP_RETURN.to_bytes(1, "big") + len(data).to_bytes(1, "big") + data
+    return script(["OP_RETURN", data.hex()])
 
 
 def p2sh_multisig_script_pubkey(m: int, pubkeys: typing.List[bytes]) -> bytes:
